@@ -24,10 +24,10 @@ type C13Case struct {
 
 func init() {
 	ev.Register(&ev.Prop{
-		ID:    "C13",
-		Rule:  "(i) exhaustive: every portion text `a/b`, `a / b` with a, b digit strings (leading zeros included) of length <= 2 (thorough: 3), b != 0, value <= 1, and every `i%`, `i.f%` with i of length <= 3, f of length <= 2 (thorough: 3), value <= 100, each as a literal and as a portion variable; (ii) generated: numerators/denominators up to 40 digits, percentages with up to 20 decimals; oracle: base-ten big-rational value computed from the digit strings by the harness, observed as the credit of `send [X den*7] (source=@world destination={P to @a remaining to @b})`, which must be exactly num*7; non-trivial = the text reads differently in base 8/16, or is not in lowest terms, or has decimals, or exceeds 64 bits",
-		New:   func() any { return &C13Case{} },
-		Check: checkC13,
+		ID:        "C13",
+		Rule:      "(i) exhaustive: every portion text `a/b`, `a / b` with a, b digit strings (leading zeros included) of length <= 2 (thorough: 3), b != 0, value <= 1, and every `i%`, `i.f%` with i of length <= 3, f of length <= 2 (thorough: 3), value <= 100, each as a literal and as a portion variable; (ii) generated: numerators/denominators up to 40 digits, percentages with up to 20 decimals; oracle: base-ten big-rational value computed from the digit strings by the harness, observed as the credit of `send [X den*7] (source=@world destination={P to @a remaining to @b})`, which must be exactly num*7; non-trivial = the text reads differently in base 8/16, or is not in lowest terms, or has decimals, or exceeds 64 bits",
+		New:       func() any { return &C13Case{} },
+		Check:     checkC13,
 		Enumerate: enumC13,
 	})
 	Generators["C13"] = func(t *rapid.T, tier string) any {
@@ -274,7 +274,9 @@ func init() {
 			}
 		}
 		c := &C13RCase{Type: gen.Pick(t, "type", []string{"account", "asset", "string", "number", "monetary", "portion"})}
-		asset := func() string { return gen.Pick(t, "asset", []string{"USD", "EUR/2", "COIN", "A", "USD/", "1INCH", "U/S/D", "X9"}) }
+		asset := func() string {
+			return gen.Pick(t, "asset", []string{"USD", "EUR/2", "COIN", "A", "USD/", "1INCH", "U/S/D", "X9"})
+		}
 		switch c.Type {
 		case "account":
 			c.Text = gen.Pick(t, "acct", []string{"a", "users:001", "a-b_c", "A:B:c", "0", "x_1:y-2", "world", "Z"})
